@@ -48,6 +48,9 @@ type World struct {
 
 	closeRequested bool
 	closeReturned  bool
+
+	// downOverride replaces the scripted downstream (world Q-B)
+	downOverride module.DeliveryTarget
 }
 
 func (w *World) msgByID(id string) *Msg {
@@ -109,9 +112,13 @@ func (w *World) boot(delay time.Duration) {
 		if w.sc.Bounce {
 			bounce = w.sink
 		}
+		var down module.DeliveryTarget = w.tgt
+		if w.downOverride != nil {
+			down = w.downOverride
+		}
 		q, err := queue.VerifNewQueue(queue.VerifConfig{
 			Location:         spool,
-			Target:           w.tgt,
+			Target:           down,
 			Bounce:           bounce,
 			Hostname:         "mx.sim.example",
 			AutogenMsgDomain: "sim.example",
